@@ -44,6 +44,12 @@ def table_U(n=30):
     return pd.DataFrame({"a": np.arange(n, dtype="int64"), "b": np.arange(n, dtype="int64") % 4}, index=pd.Index(idx, dtype="int64"))
 
 
+def table_P(n=40):
+    """`b` ascending across partitions (already sorted), `a` descending"""
+    return pd.DataFrame({"a": np.arange(n, dtype="int64")[::-1].copy(), "b": np.arange(100, n + 100, dtype="int64")},
+                        index=pd.Index(np.arange(n, dtype="int64")))
+
+
 def table_R():
     return pd.DataFrame({"b": np.array([0, 1, 2, 3, 7], dtype="int64"), "r": np.array([100, 101, 102, 103, 107], dtype="int64")},
                         index=pd.Index(np.arange(5, dtype="int64") * 2))
@@ -76,6 +82,27 @@ def write_parquet(path, version):
     for i in range(nfiles):
         part = pdf.iloc[i * step : (i + 1) * step]
         pq.write_table(pa.Table.from_pandas(part), os.path.join(path, f"part.{i}.parquet"))
+    write_parquet_fixed(path + "_fixed", version)
+
+
+def fixed_frame(version):
+    lo = 1000 * (version + 1)
+    return pd.DataFrame({"v": np.arange(2 * lo, 2 * lo + 20, dtype="int64")}, index=pd.Index(np.arange(lo, lo + 20, dtype="int64"), name="idx"))
+
+
+def write_parquet_fixed(path, version):
+    """A two-file dataset rewritten IN PLACE (files overwritten, not removed) to exactly the same byte sizes:
+    fixed-width columns, same row count, no compression, no dictionary — only contents and mtime change."""
+    os.makedirs(path, exist_ok=True)
+    pdf = fixed_frame(version)
+    before = [os.path.getsize(os.path.join(path, f)) for f in sorted(os.listdir(path)) if f.endswith(".parquet")]
+    for i in range(2):
+        pdf.iloc[10 * i: 10 * i + 10].to_parquet(os.path.join(path, f"part.{i}.parquet"), compression=None, use_dictionary=False, index=True)
+    after = [os.path.getsize(os.path.join(path, f)) for f in sorted(os.listdir(path)) if f.endswith(".parquet")]
+    if before and before != after:
+        raise RuntimeError(f"fixed-size rewrite changed file sizes {before} -> {after}")
+    with open(path + ".version", "w") as fh:
+        fh.write(str(version))
 
 
 _TMP = None
@@ -127,6 +154,15 @@ class Env:
         import dask_expr as dx
 
         return dx.from_pandas(table_U(), npartitions=npartitions, sort=sort)
+
+    def P(self, npartitions=4):
+        import dask_expr as dx
+
+        return dx.from_pandas(table_P(), npartitions=npartitions)
+
+    @property
+    def pqf(self):
+        return self.pq + "_fixed"
 
     def R(self, npartitions=2):
         import dask_expr as dx
@@ -406,6 +442,25 @@ def _q_sort_k(env, i=0):
     return env.A(nparts).sort_values(keys, shuffle_method="tasks")
 
 
+def _q_presorted(env, ascending=True, nparts=4):
+    """sort by a column that is already ascending across the partitions: both directions share (frame, column, npartitions)"""
+    return env.P(nparts).sort_values("b", ascending=ascending, shuffle_method="tasks")
+
+
+def _q_pqf(env, calc=True):
+    import dask_expr as dx
+
+    return dx.read_parquet(env.pqf, filesystem="arrow", calculate_divisions=calc)
+
+
+def _q_pqf_loc(env, width=2):
+    """a label slice inside the *current* contents of the fixed-size dataset (needs truthful divisions)"""
+    import dask_expr as dx
+
+    lo = 1000 * (int(open(env.pqf + ".version").read()) + 1)
+    return dx.read_parquet(env.pqf, filesystem="arrow", calculate_divisions=True).loc[lo + 2: lo + 2 + width]
+
+
 def _q_sort_head(env, by="c", n=4, nparts=4):
     keys = [by, "a"] if by != "a" else ["a"]
     return env.A(nparts).sort_values(keys, shuffle_method="tasks").head(n, compute=False)
@@ -472,6 +527,10 @@ POOL = {
     "shift": (_q_shift, {}, [("periods", 2), ("nparts", 3)], {}),
     "min_max": (_q_min_max, {}, [("col", "a"), ("nparts", 3)], {}),
     "sort_k": (_q_sort_k, {}, [("i", k) for k in range(1, 16)], {"tags": ["sort"]}),
+    "presorted_asc": (_q_presorted, {}, [("nparts", 5)], {"tags": ["sort", "presorted"], "parts": True}),
+    "presorted_desc": (_q_presorted, {"ascending": False}, [("nparts", 5)], {"tags": ["sort", "presorted"], "parts": True}),
+    "pqf": (_q_pqf, {}, [("calc", False)], {"tags": ["parquet", "pqf"]}),
+    "pqf_loc": (_q_pqf_loc, {}, [("width", 3)], {"tags": ["parquet", "pqf"]}),
     "sort_head": (_q_sort_head, {}, [("by", "a"), ("n", 5), ("nparts", 3)], {"tags": ["sort"]}),
 }
 
@@ -586,7 +645,18 @@ def observe(coll, what=ORACLE_ORDER, sort_rows=False):
             guard("len", lambda: int(len(coll)) if hasattr(coll, "__len__") and getattr(coll, "ndim", 0) > 0 else None)
         elif w == "result":
             guard("result", lambda: canon_result(coll.compute(), sort_rows))
+        elif w == "parts":
+            guard("parts", lambda: parts_result(coll, sort_rows))
     return out
+
+
+def parts_result(coll, sort_rows=False):
+    """the partitioned plan executed partition by partition (`.compute()` would first push a repartition(1) below sorts)"""
+    import dask
+
+    opt = coll.optimize()
+    parts = dask.get(dict(opt.__dask_graph__()), opt.__dask_keys__())
+    return [canon_result(p, sort_rows) for p in parts]
 
 
 # --------------------------------------------------------------------------- fresh-interpreter oracle
@@ -623,7 +693,8 @@ def child_main():
         for it in job["items"]:
             try:
                 coll = build(it["qid"], job["pq"], it.get("variation"))
-                out[it["id"]] = observe(coll, tuple(it.get("what", ORACLE_ORDER)),
+                what = tuple(it.get("what", ORACLE_ORDER + (("parts",) if flags(it["qid"]).get("parts") else ())))
+                out[it["id"]] = observe(coll, what,
                                         sort_rows=flags(it["qid"]).get("sort_rows", False))
             except Exception as e:  # noqa: BLE001
                 out[it["id"]] = {"build_error": type(e).__name__, "msg": str(e)[:200]}
